@@ -96,7 +96,7 @@ def mutate(rnd, raw):
             return kind, s
         if kind == "enum-default" and enums:
             p, n = rnd.choice(enums)
-            n["default"] = rnd.choice(["NOT_A_SYMBOL", "", n["symbols"][0].lower() + "_x"])
+            n["default"] = rnd.choice(["NOT_A_SYMBOL", "", (n["symbols"][0].lower() if n["symbols"] else "a") + "_x"])
             return kind, s
         if kind == "default-type" and fields:
             p, f = rnd.choice(fields)
@@ -251,6 +251,7 @@ def run_c11(ctx, fa):
     while len(cases) < n:
         g = gen.Gen(rnd, logical=rnd.random() < 0.5, max_depth=rnd.choice([1, 2, 3]), big=False, aliases=rnd.random() < 0.3)
         g.dict_prims_with_defaults = True
+        g.empty_enums = True
         ir = g.schema()
         raw = g.render(ir)
         cases.append(dict(parse_case(fa, "p%d" % len(cases), raw), nodes=gen.count_nodes(ir)))
@@ -334,6 +335,7 @@ def run_c13(ctx, fa):
     while len(cases) < n and tries < 4 * n:
         tries += 1
         g = gen.Gen(rnd, logical=rnd.random() < 0.3, max_depth=rnd.choice([1, 2, 3]), big=False, aliases=rnd.random() < 0.3)
+        g.empty_enums = True
         ir = g.schema()
         raw = g.render(ir)
         c = {"id": "k%d" % len(cases), "op": "canon", "schema": proj.pj(raw), "nodes": gen.count_nodes(ir), "variants": [], "enc": []}
